@@ -101,7 +101,7 @@ def generate(rng, tier):
         ops.append({"t": round(t_close + rng.choice([0.0001, 0.001, 0.01, 0.13]), 6), "op": "stall", "h": "V",
                     "dur": rng.choice([0.3, 1.05, 1.5])})
     mode = "sync" if rng.random() < 0.25 and not startup else "async"
-    if mode == "sync" and rng.random() < 0.6:
+    if (mode == "sync" and rng.random() < 0.6) or (mode == "async" and not startup and rng.random() < 0.12):
         # an application written against the blocking API: ServiceBrowser objects with their own delivery thread, created
         # through Zeroconf.add_service_listener (the thread is stepped by the simulator, see _ThreadModel)
         for i in range(rng.choice([1, 2])):
@@ -155,41 +155,74 @@ class _JoinBlocksForever(Exception):
 
 class _ThreadModel:
     """The delivery thread of a zeroconf.ServiceBrowser, stepped cooperatively: the real run() loop is `get an event from
-    the queue; None ends the thread; otherwise fire the handlers`. Here every put() schedules one such step after a
-    seed-chosen scheduling latency of the thread (0 .. 50 ms), and join() - called by cancel() on the closing thread -
-    runs the remaining steps until the stop marker is reached, which is what blocking on the real thread amounts to."""
+    the queue; None ends the thread; otherwise fire the handlers`. Here the thread picks an event up a seed-chosen
+    scheduling latency (0 .. 50 ms) after it was queued, and a handler may take its time (mostly none, now and then 0.2 ..
+    3 s: a slow listener) during which the thread is busy. join() - called by cancel() on the closing thread - blocks its
+    caller while the thread works: virtual time moves on by as much as the caller waited (until the stop marker was
+    reached, or the timeout given to join ran out), and nothing else of the loop runs meanwhile when the caller is the
+    loop thread."""
 
     def __init__(self, w, host, sb):
         self.w, self.host, self.sb = w, host, sb
-        self.items = []
+        self.items = []  # (event, ready_at, busy)
         self.finished = False
-        self.fired_after_finish = 0
+        self.free_at = 0.0
+        self._wake = None
 
     # queue.SimpleQueue surface used by ServiceBrowser
     def put(self, item):
-        self.items.append(item)
-        d = self.w.decide(f"thread/{self.host.name}", lambda r: r.choice([0.0, 0.0, 1e-6, 1e-4, 0.003, 0.05]))
-        self.w.loop.call_later(d, self.step, context=self.host.new_context())
+        lat, busy = self.w.decide(f"thread/{self.host.name}", lambda r: (r.choice([0.0, 0.0, 1e-6, 1e-4, 0.003, 0.05]),
+                                                                         r.choice([0.0] * 6 + [0.2, 1.5, 3.0])))
+        self.items.append((item, self.w.now + lat, busy))
+        self._arm()
 
     def get(self):  # never called: run() is modelled by step()
         raise AssertionError("the delivery thread is modelled")
 
-    def step(self):
+    def _arm(self):
+        if self._wake is not None or self.finished or not self.items:
+            return
+        at = max(self.items[0][1], self.free_at, self.w.now)
+        self._wake = self.w.loop.call_at(at, self._on_wake, context=self.host.new_context())
+
+    def _on_wake(self):
+        self._wake = None
         if self.finished or not self.items:
             return
-        ev = self.items.pop(0)
+        if max(self.items[0][1], self.free_at) > self.w.now + 1e-12:
+            self._arm()
+            return
+        self._take()
+        self._arm()
+
+    def _take(self):
+        ev, _, busy = self.items.pop(0)
         if ev is None:
             self.finished = True
             self.w.log("thread-exit", self.host.name)
             return
+        self.free_at = self.w.now + busy
         self.w.net.fault_counts["thread_delivered_callbacks"] = self.w.net.fault_counts.get("thread_delivered_callbacks", 0) + 1
         self.sb._fire_service_state_changed_event(ev)
 
     def join(self, timeout=None):
+        loop = self.w.loop
+        deadline = None if timeout is None else loop._now + timeout
         while not self.finished:
             if not self.items:
-                raise _JoinBlocksForever("ServiceBrowser.cancel(): the delivery thread was never told to stop")
-            self.step()
+                if deadline is None:
+                    raise _JoinBlocksForever("ServiceBrowser.cancel(): the delivery thread was never told to stop")
+                loop._now = max(loop._now, deadline)
+                return
+            at = max(self.items[0][1], self.free_at, loop._now)
+            if deadline is not None and at > deadline:
+                loop._now = max(loop._now, deadline)
+                return
+            loop._now = at  # the caller is blocked while the thread works
+            self._take()
+        # the thread ends when its last handler has returned
+        end = max(self.free_at, loop._now)
+        loop._now = end if deadline is None else min(end, max(deadline, loop._now))
 
 
 class _SyncFuture:
@@ -199,12 +232,15 @@ class _SyncFuture:
     def result(self, timeout=None):
         loop = self.w.loop
         loop.force_running = False
+        self.w.sync_calls = getattr(self.w, "sync_calls", [])
+        self.w.sync_calls.append([loop._now, None])
         try:
             async def waiter():
                 return await asyncio.wait_for(self.coro, timeout)
 
             return self.host.new_context().run(loop.run_until_complete, waiter())
         finally:
+            self.w.sync_calls[-1][1] = loop._now
             loop.force_running = True
 
 
@@ -324,7 +360,9 @@ def execute(scenario, seed, overrides=None):
             await w.sleep_until(scenario["second_close"])
             h = w.hosts["V"]
             e2 = w.spawn(h, "close2", h.azc.async_close, None)
-            await w.sleep_until(scenario["end"])
+            # (a close that had to wait for a slow listener of a thread-based browser may have taken the clock past
+            # the planned end of the run)
+            await w.sleep_until(max(scenario["end"], w.rel() + 1.5))
             st["t_ret2"] = e2["t_done"]
             st["exc2"] = e2["exc"]
 
@@ -375,6 +413,13 @@ def execute(scenario, seed, overrides=None):
         zc_uasyncio.asyncio = real_asyncio
         w.teardown()
     return out
+
+
+def _after_unregister_all_returned(w, t):
+    """Zeroconf.close() from another thread: the record was sent at or after the instant unregister_all_services()
+    returned to the calling thread (its first blocking call into the loop), i.e. before that thread got to set `done`."""
+    calls = getattr(w, "sync_calls", [])
+    return bool(calls) and calls[0][1] is not None and t >= calls[0][1] - 1e-6
 
 
 def _svc_of(sc, name, t=None):
@@ -488,7 +533,7 @@ def _oracle(w, drv, sc, st, probe, stats, out):
                     f"({'multicast' if mc else 'unicast'}); close was called at {st['t_call'] - t0:.6f} and returned at "
                     f"{t_ret - t0:.6f}; no later goodbye on {bad or 'any socket'}", after_call=t >= st["t_call"],
                     rtype=r.type, mode=sc["mode"], reg_in_flight=stats["registrations_in_flight_at_close"] > 0,
-                    at_return=abs(t - t_ret) < 1e-6)
+                    at_return=abs(t - t_ret) < 1e-6 or _after_unregister_all_returned(w, t))
             break
     for owner, exc, coro in w.loop.unretrieved_task_exceptions():
         if owner == "V":
